@@ -8,9 +8,9 @@
     exception paths) produces only disciplined traces -- that part of C18 rests on monitored exploration, where
     the extracted [ledger_check] judges every recorded trace. *)
 From Coq Require Import NArith List Bool String FMapPositive Permutation.
-From XV Require Import Gen.GenC18DomHeap Gen.GenC18Init.
-From XV Require Import C18.Spec18 C18.Model18 C18.Model18X C18.Model18A C18.Model18I C18.Model18M C18.Model18G.
-From XV Require Import C18.Proofs18a C18.Proofs18b C18.Proofs18c C18.Proofs18d C18.Proofs18e C18.Proofs18f C18.Proofs18g C18.Proofs18h.
+From XV Require Import Gen.GenC18DomHeap Gen.GenC18Init Gen.GenC18Janitor.
+From XV Require Import C18.Spec18 C18.Model18 C18.Model18X C18.Model18A C18.Model18I C18.Model18M C18.Model18G C18.Model18J C18.Model18V.
+From XV Require Import C18.Proofs18a C18.Proofs18b C18.Proofs18c C18.Proofs18d C18.Proofs18e C18.Proofs18f C18.Proofs18g C18.Proofs18h C18.Proofs18j C18.Proofs18v.
 Import ListNotations.
 Local Open Scope N_scope.
 
@@ -318,3 +318,75 @@ Theorem T18_init_msgloader_released :
   forallb (fun f => existsb (String.eqb f) msgloader_reset) msgloader_set = true.
 Proof. vm_compute. reflexivity. Qed.
 Print Assumptions T18_init_msgloader_released.
+
+(** ---- 6. scope guards: JanitorMemFunCall on a constructor, Janitor / ArrayJanitor on a temporary ---------------- *)
+(** the guarded constructor of Model18J.v (`CleanupType cleanup(this, &T::cleanUp); ... cleanup.release();`), for EVERY body
+    of the statement language, EVERY choice of the statement that throws (and for no throw), any manager and first address:
+    when the constructor satisfies [ctor_ok] (members assigned at most once, cleanUp and the destructor release every member
+    the constructor assigns and none twice, `cleanup.release()` is the last statement) the manager's trace over the whole
+    life of the object is accepted by the monitor: what was allocated before the exception is released exactly once by the
+    guard; a completed object is released exactly once by its destructor. *)
+Theorem T18_janitor_paths : forall m base c k, ctor_ok c = true -> ledger_check (jlife m base c k) = V_Ok.
+Proof. exact janitor_paths. Qed.
+Print Assumptions T18_janitor_paths.
+
+(** non-vacuity, and the three ways to break the obligation each produce a trace the monitor rejects *)
+Example janitor_ok_example :
+  ctor_ok {| c_init := [7]; c_body := body_of [0; 1; 2] false; c_cleanup := [2; 1; 0; 7; 9]; c_dtor := [0; 1; 2; 7] |} = true.
+Proof. vm_compute. reflexivity. Qed.
+Theorem T18_janitor_missing_member_refuted : exists k,      (* cleanUp forgets member 1: a throw after its allocation leaks it *)
+  ledger_check (jlife 1 100 {| c_init := []; c_body := body_of [0; 1] false; c_cleanup := [0]; c_dtor := [0; 1] |} (Some k))
+  = V_Outstanding [(101, 1, 1)].
+Proof. exists 4%nat. vm_compute. reflexivity. Qed.
+Theorem T18_janitor_early_release_refuted : exists k,       (* work after cleanup.release(): a throw there leaks everything *)
+  ledger_check (jlife 1 100 {| c_init := []; c_body := body_of [0] true; c_cleanup := [0]; c_dtor := [0] |} (Some k))
+  = V_Outstanding [(100, 1, 1)].
+Proof. exists 3%nat. vm_compute. reflexivity. Qed.
+Theorem T18_janitor_no_release_refuted :                   (* release() never called: the guard fires on the normal exit, then the destructor *)
+  ledger_check (jlife 1 100 {| c_init := []; c_body := [JAlloc 0; JCall]; c_cleanup := [0]; c_dtor := [0] |} None) = V_DoubleFree 2.
+Proof. vm_compute. reflexivity. Qed.
+
+(** generated per-constructor obligations: every function of /repo that arms `CleanupType cleanup(this, &C::fn)`, with the
+    members it (and what it calls, two calls deep, and its initialiser list) assigns from new / allocate / replicate and keeps,
+    the members C::fn and ~C release, and the place of `cleanup.release()`, satisfies [ctor_ok] ... *)
+Theorem T18_ctor_guard_obligations : forallb (fun x => ctor_ok (snd x)) guard_sites = true.
+Proof. vm_compute. reflexivity. Qed.
+Print Assumptions T18_ctor_guard_obligations.
+(** ... hence every modelled exit of each of them is leak-free and free of double releases *)
+Theorem T18_ctor_guard_as_built : forall nm c, In (nm, c) guard_sites ->
+  forall m base k, ledger_check (jlife m base c k) = V_Ok.
+Proof.
+  intros nm c I m base k. apply janitor_paths.
+  pose proof T18_ctor_guard_obligations as H. rewrite forallb_forall in H. exact (H (nm, c) I).
+Qed.
+Print Assumptions T18_ctor_guard_as_built.
+Example guard_sites_nonempty : Nat.leb 20 (List.length guard_sites) = true.
+Proof. vm_compute. reflexivity. Qed.
+(** Janitor.c still has the statements the models follow (destructor = reset(); release() forgets the block; reset() releases it) *)
+Theorem T18_janitor_shapes : forallb snd janitor_shapes = true.
+Proof. vm_compute. reflexivity. Qed.
+
+(** a temporary under Janitor<T> / ArrayJanitor<T>: for EVERY sequence of possibly throwing calls, reset(new block) and
+    release() (hand-over to a later owner) and every throw choice, the trace is accepted by the monitor (unconditional) *)
+Theorem T18_janitor_local : forall m base ops k, ledger_check (ljlife m base ops k) = V_Ok.
+Proof. exact janitor_local. Qed.
+Print Assumptions T18_janitor_local.
+
+(** ---- 7. adopting containers: RefVectorOf<T>(maxElems, adoptElems, manager) ---------------------------------------- *)
+(** for EVERY history of addElement / setElementAt / insertElementAt / orphanElementAt / removeElementAt / removeLastElement /
+    removeAllElements (bad indices included: ArrayIndexOutOfBoundsException) followed by the destructor, when the client hands in
+    distinct objects: the destroyed container holds nothing; the objects it deleted and the objects that are the client's again
+    are without repetition, disjoint, and together exactly the objects handed in.  An adopting vector therefore deletes each
+    object it holds exactly once and never one it handed back; one that does not adopt deletes nothing. *)
+Theorem T18_vector_adopt : forall adopt maxElems ops, NoDup (vadded ops) ->
+  let st := vdestroy adopt (vrun adopt (vinit maxElems) ops) in
+  v_el st = [] /\ NoDup (v_del st ++ v_out st) /\ Permutation (v_del st ++ v_out st) (vadded ops).
+Proof. exact vector_accounting. Qed.
+Print Assumptions T18_vector_adopt.
+Theorem T18_vector_no_adopt : forall maxElems ops, v_del (vdestroy false (vrun false (vinit maxElems) ops)) = [].
+Proof. exact vector_no_adopt. Qed.
+Print Assumptions T18_vector_no_adopt.
+Example vector_run :
+  let st := vdestroy true (vrun true (vinit 2) [VAdd 1; VAdd 2; VAdd 3; VSet 4 1; VOrphan 0; VInsert 5 9; VRemoveLast; VAdd 6]) in
+  (v_del st, v_out st, v_blk st) = ([2; 3; 4; 6], [1; 5], [2; 3]).
+Proof. vm_compute. reflexivity. Qed.
